@@ -116,7 +116,7 @@ def blas_threads_digest(payload):
 
 def run(ctx):
     pyr = random.Random(ctx.seed)
-    ctx.proof_layer(allowed_axioms=(), coq_deps=[], gen=["gl_retrieve", "front_single", "front_joint"])
+    ctx.proof_layer(allowed_axioms=(), coq_deps=[], gen=["gl_retrieve", "front_single", "front_joint", "la_initial", "pool"])
     core.note_drift(ctx, ANCHORS)
     exp = json.load(open(os.path.join(core.VERIF, "vcheck", "expected_inventory.json")))
     cov = core.LineCoverage()
